@@ -162,7 +162,13 @@ pub fn check_case(ctx: &mut Ctx, src: &str, stdin: &[u8], origin: &str) {
     if let Some(sig) = signal {
         let name = mon::signal_name(sig);
         let tail: String = text.lines().filter(|l| !l.starts_with("SITE")).collect::<Vec<_>>().join(" / ").chars().take(400).collect();
-        if text.contains("memory allocation of") {
+        let resource = text.contains("memory allocation of")
+            || text.contains("AddressSanitizer: out of memory")
+            || text.contains("AddressSanitizer: allocation-size-too-big")
+            || text.contains("AddressSanitizer: requested allocation size")
+            || text.contains("AddressSanitizer failed to allocate")
+            || text.contains("hard rss limit exhausted");
+        if resource {
             ctx.inconclusive("allocation_failure_abort");
         } else if sig == 24 || sig == 9 {
             ctx.inconclusive("cpu_limit");
@@ -526,7 +532,7 @@ pub fn run(ctx: &mut Ctx) {
         });
         let nt = (ctx.nshards as f64 * ctx.scale.max(1.0)) as u64;
         ctx.cases("miri_templates", nt, |ctx, rng, _| {
-            let idx = rng.next_u64() % (TEMPLATES.len() as u64 * 44);
+            let idx = rng.next_u64() % (TEMPLATES.len() as u64 * universe().len() as u64);
             if let Some((src, _)) = w1b(idx) {
                 check_case(ctx, &src, b"", "template");
             }
@@ -536,7 +542,7 @@ pub fn run(ctx: &mut Ctx) {
     ctx.cases("named", NAMED.len() as u64, |ctx, _, idx| {
         check_case(ctx, NAMED[idx as usize], b"5\nabc\n", "named");
     });
-    let total = TEMPLATES.len() as u64 * 44 * EXTREME.len() as u64;
+    let total = TEMPLATES.len() as u64 * universe().len() as u64 * EXTREME.len() as u64;
     ctx.cases("templates", total, |ctx, rng, idx| {
         if let Some((src, label)) = w1b(idx) {
             ctx.seen("templates_used", label.split(" / ").next().unwrap_or(""));
@@ -579,7 +585,7 @@ pub fn emit(dir: &str, seed: u64, n: usize) {
     for i in 0..n {
         let mut rng = Rng::new(crate::rng::mix(&[seed, 0xC09, i as u64]));
         let text = match i % 3 {
-            0 => match w1b(rng.next_u64() % (TEMPLATES.len() as u64 * 44)) {
+            0 => match w1b(rng.next_u64() % (TEMPLATES.len() as u64 * universe().len() as u64)) {
                 Some((src, _)) => src,
                 None => continue,
             },
